@@ -517,6 +517,12 @@ class Body:
                         decided.append((b, v))
                         st.append(tgt)
                         continue
+                else:
+                    tgt = decide_kind_test(t, e, assume)
+                    if tgt is not None:
+                        decided.append((b, "kind-test"))
+                        st.append(tgt)
+                        continue
             st.extend(self.succs(b))
         return seen, decided
 
@@ -573,6 +579,37 @@ class Body:
 
 
 TRY_BRANCH = ("<std::result::Result<T, E> as std::ops::Try>::branch", "<std::option::Option<T> as std::ops::Try>::branch")
+
+# `v.is_object()` asks the question `matches!(v, Value::Object(_))` asks: both are tests on the kind of v
+VALUE_ADT = "serde_json::Value"
+KIND_TEST = {"serde_json::Value::is_null": "Null", "serde_json::Value::is_boolean": "Bool", "serde_json::Value::is_number": "Number",
+             "serde_json::Value::is_string": "String", "serde_json::Value::is_array": "Array", "serde_json::Value::is_object": "Object"}
+
+
+def kind_test(e):
+    """(operand expression, kind, negated) when the boolean expression e is `[!]serde_json::Value::is_<kind>(operand)`."""
+    x = strip_refs(e)
+    neg = False
+    while x[0] == "unop" and x[1] == "Not":
+        neg, x = not neg, strip_refs(x[2])
+    if x[0] == "call" and x[1] and x[1].get("path") in KIND_TEST and x[2]:
+        return strip_refs(x[2][0]), KIND_TEST[x[1]["path"]], neg
+    return None
+
+
+def decide_kind_test(t, e, assume):
+    """Target block of the boolean SwitchInt `t` on e when e is a kind test of a value whose kind `assume` knows."""
+    kt = kind_test(e)
+    if kt is None or t.get("dty") != "bool":
+        return None
+    v = assume(kt[0], VALUE_ADT)
+    if v is None:
+        return None
+    truth = "1" if ((v == kt[1]) != kt[2]) else "0"
+    for val, bb in t["arms"]:
+        if str(val) == truth:
+            return bb
+    return t["otherwise"]
 
 
 def _residual_variant(a):
